@@ -921,6 +921,18 @@ impl<'a> Gen<'a> {
         }
     }
 
+    pub fn program_pure(&mut self, size: u32) -> String {
+        let mut out = String::new();
+        if self.rng.chance(1, 6) { out += "typedef float4 Color4;\n\n"; }
+        for _ in 0..size {
+            match self.rng.below(12) {
+                0 | 1 => self.decl_namespace(&mut out, "", 2),
+                _ => self.decl_scoped(&mut out, "", 2),
+            }
+        }
+        out
+    }
+
     pub fn program(&mut self, size: u32) -> String {
         let mut out = String::new();
         if self.rng.chance(1, 6) { out += "typedef float4 Color4;\n\n"; }
@@ -956,4 +968,11 @@ pub fn generate(seed: u64, size: u32) -> String {
     let mut rng = Rng::new(seed);
     let mut g = Gen::new(&mut rng);
     g.program(size)
+}
+
+/// the executable, resource-free subset (C01 / C02): no resources, no constant buffers, no entry points
+pub fn generate_pure(seed: u64, size: u32) -> String {
+    let mut rng = Rng::new(seed);
+    let mut g = Gen::new(&mut rng);
+    g.program_pure(size)
 }
